@@ -356,7 +356,8 @@ impl<'a> P<'a> {
                 } else if self.eat("<![CDATA[") {
                     let t = self.until("]]>", "CDATA section")?;
                     self.check_chars(t)?;
-                    text.push_str(t);
+                    // end-of-line normalisation applies inside CDATA sections as well
+                    text.push_str(&t.replace("\r\n", "\n").replace('\r', "\n"));
                 } else if self.eat("<!--") {
                     self.comment()?;
                 } else if self.eat("<?") {
